@@ -349,6 +349,40 @@ func main() {
 			rep.Class("equivalent-spellings/accepted")
 		}
 	}
+	// one site under several spellings of its address (a bare trailing slash, letter case, a leading zero in the port), alone and
+	// next to a second site: the named host is answered by it, every other host by nobody (or by the second site)
+	for _, spelling := range []string{"a.test:8080/", "a.test:8080", "A.Test:8080/", "a.test:08080/", "http://a.test:8080/"} {
+		for _, second := range []string{"", "b.a.test:8080", "b.a.test:8080/"} {
+			cf := fmt.Sprintf("%s {\n\theader / X-Site s0\n\tstatus 204 /\n}\n", spelling)
+			if second != "" {
+				cf += fmt.Sprintf("%s {\n\theader / X-Site s1\n\tstatus 204 /\n}\n", second)
+			}
+			l, err := kit.Load(cf, "/nonexistent/Casketfile")
+			rep.Eval(1)
+			if err != nil {
+				rep.Violation("C01/unexpected-load-error", "a site address with a bare trailing slash failed to load: "+err.Error(), vcase{Casketfile: cf})
+				continue
+			}
+			if len(l.Servers) != 1 {
+				rep.Violation("C01/address-spelling/listeners", fmt.Sprintf("sites on one port ended up on %d listeners", len(l.Servers)), vcase{Casketfile: cf})
+			}
+			for _, tc := range []struct{ host, path, want string }{{"a.test:8080", "/", "s0"}, {"a.test", "/x", "s0"}, {"A.TEST:9", "/", "s0"}, {"nosuch.example", "/", "none"}, {"x.a.test", "/", "none"}, {"b.a.test", "/", "s1"}} {
+				want := tc.want
+				if want == "s1" && second == "" {
+					want = "none"
+				}
+				for _, srv := range l.Servers {
+					rec, pv, _ := kit.ServeReq(srv, reqFor(tc.host, tc.path, 1))
+					rep.Eval(1)
+					if got := outcome(rec, pv, tc.host, 1); got != want {
+						rep.Violation("C01/address-spelling", fmt.Sprintf("site written %q (second site %q), Host %q path %s: got %s, want %s", spelling, second, tc.host, tc.path, got, want), vcase{cf, tc.host, tc.path, 1, got, want})
+					}
+				}
+			}
+			l.Close()
+			rep.Class("address-spelling")
+		}
+	}
 	// IPv6 literal sites: the port of the Host header is ignored for them too, and [::] is a catch-all
 	for _, tc := range []struct {
 		site  string
